@@ -633,6 +633,33 @@ func (e *Engine) load(place *Term, ctx *Ctx, at ssa.Value) *Term {
 				break
 			}
 		}
+		if !killed && strings.HasPrefix(c.w.Kind, "havoc") && atInstr != nil && atInstr.Parent() != c.w.Fn {
+			// an environment call made, on the load's call string, after the call that
+			// leads to the load has not happened yet
+			for cc := ctx; cc != nil; cc = cc.Parent {
+				if cc.Call != nil && cc.Call.Parent() == c.w.Fn {
+					if before(cc.Call, c.w.Instr) && !inCycle(c.w.Instr.Block()) {
+						killed = true
+					}
+					break
+				}
+			}
+		}
+		if !killed && isInitStore(c.w) {
+			// an initialising store of a fresh object is overwritten by a later
+			// environment call that may write the whole object (the device filling a
+			// request header), when the load happens after that call — in the same
+			// function or, on the load's call string, in a function called after it
+			for _, k := range cands {
+				if k.w == c.w || k.rel != 1 || !strings.HasPrefix(k.w.Kind, "havoc") || inCycle(k.w.Instr.Block()) {
+					continue
+				}
+				if e.loadIsAfter(k.w.Instr, atInstr, ctx) {
+					killed = true
+					break
+				}
+			}
+		}
 		if killed {
 			continue
 		}
@@ -1056,6 +1083,21 @@ func sameAddr(a, b ssa.Value) bool {
 	fb, ok2 := b.(*ssa.FieldAddr)
 	if ok1 && ok2 {
 		return fa.Field == fb.Field && sameAddr(fa.X, fb.X)
+	}
+	return false
+}
+
+// loadIsAfter: the load at atInstr (evaluated on call string ctx) happens after
+// instruction w: in the same function with w before it, or inside a callee
+// whose call instruction, somewhere on the call string, follows w.
+func (e *Engine) loadIsAfter(w ssa.Instruction, atInstr ssa.Instruction, ctx *Ctx) bool {
+	if atInstr != nil && atInstr.Parent() == w.Parent() {
+		return before(w, atInstr)
+	}
+	for c := ctx; c != nil; c = c.Parent {
+		if c.Call != nil && c.Call.Parent() == w.Parent() {
+			return before(w, c.Call)
+		}
 	}
 	return false
 }
